@@ -53,6 +53,7 @@ struct X512 : hmac_hash::SHA512 { void inject(uint64_t tot) { m_tot_len = tot; }
 
 template <class X, size_t DS> static std::string hist(const std::vector<std::string>& ops) {
     X* c = new X();            // heap object: ASan sees out-of-bounds on m_block
+    X* saved = 0;
     std::string out; bool first = true;
     for (size_t i = 0; i < ops.size(); ++i) {
         const std::string& o = ops[i];
@@ -63,9 +64,14 @@ template <class X, size_t DS> static std::string hist(const std::vector<std::str
         else if (o == "K") { X* c2 = new X(*c); delete c; c = c2; }                      // continue on a copy of the context (the original is destroyed)
         else if (o == "k") { X* c2 = new X(*c); uint8_t d[DS]; c2->finish(d); delete c2;  // finish a copy, keep using the original
                              if (!first) out += ","; out += hx(d, DS); first = false; }
+        else if (o == "Y") { X& r = *c; *c = r; }                                          // self-assignment keeps the state
+        else if (o[0] == 'G') { Bytes junk = bx(o.substr(2)); X* d2 = new X(); d2->init(); d2->update(junk.data(), junk.size());
+                                *d2 = *c; delete c; c = d2; }                              // copy-ASSIGNED onto a context that was in use; continue there
+        else if (o == "V") { delete saved; saved = new X(*c); }                            // save a copy ...
+        else if (o == "R") { if (saved) *c = *saved; }                                     // ... and assign it back later (save / restore)
         else throw std::logic_error("hist op");
     }
-    delete c;
+    delete c; delete saved;
     return out;
 }
 
@@ -126,7 +132,7 @@ static std::string hmacstr_forms(TypeHash ty, const Bytes& k, const Bytes& m, bo
     return agree(f);
 }
 static std::string hmachist(TypeHash ty, const std::vector<std::string>& ops) {
-    HmacContext* c = new HmacContext(ty);
+    HmacContext* c = new HmacContext(ty); HmacContext* saved = 0;
     std::string out; bool first = true;
     for (size_t i = 0; i < ops.size(); ++i) {
         const std::string& o = ops[i];
@@ -137,9 +143,19 @@ static std::string hmachist(TypeHash ty, const std::vector<std::string>& ops) {
         else if (o == "K") { HmacContext* c2 = new HmacContext(*c); delete c; c = c2; }
         else if (o == "k") { HmacContext* c2 = new HmacContext(*c); uint8_t d[64]; size_t ds = ty == TypeHash::SHA1 ? 20 : ty == TypeHash::SHA256 ? 32 : 64;
                              c2->final(d, ds); delete c2; if (!first) out += ","; out += hx(d, ds); first = false; }
+        else if (o == "Y") { HmacContext& r = *c; *c = r; }
+        else if (o[0] == 'G') {      // G:<type>:<key>:<junk>  copy-assigned onto a context of (possibly) another hash that was in use
+            std::vector<std::string> g = split(o, ':'); HmacContext* d2 = new HmacContext(type_of(g[1])); Bytes k = bx(g[2]), junk = bx(g[3]);
+            d2->init(k.data(), k.size()); d2->update(junk.data(), junk.size()); *d2 = *c; delete c; c = d2; }
+        else if (o == "V") { delete saved; saved = new HmacContext(*c); }
+        else if (o == "R") { if (saved) *c = *saved; }
+        else if (o[0] == 'f') {      // f:<n>  final() into a buffer that is too small: rejected, and the context is as it was
+            size_t n = (size_t)atol(o.c_str() + 2); uint8_t d[64];
+            try { c->final(d, n); out += (first ? "" : ","); out += "SHORT-FINAL-ACCEPTED"; first = false; }
+            catch (const std::invalid_argument&) {} catch (...) { out += (first ? "" : ","); out += "SHORT-FINAL-OTHER-SIGNAL"; first = false; } }
         else throw std::logic_error("hmachist op");
     }
-    delete c;
+    delete c; delete saved;
     return out;
 }
 
@@ -154,8 +170,20 @@ template <class FV, class FS> static std::string dec_forms(FV fv, FS fs) {
     return agree(f);
 }
 
+static std::string run(const std::vector<std::string>& a);
+// ---- calls made while this translation unit's globals are being initialised: the driver is first on the link line, so this runs
+// before the library's own dynamic initialisers (a table the library builds at load time is not there yet)
+static const char* const g_static_lines[] = { "hmacstr sha256 6b6579 73746174696320696e6974 1 0", "hmacstr sha1 6b6579 73746174696320696e6974 1 1", "hmacstr sha512 6b6579 73 0 0", "tohex 0 00ff10a5", "tohex 1 00ff10a5", "hexstr sha256 616263", "sha sha1 616263", "sha sha512 -", "b64enc 0 1 666f6f626172", "b64dec 0 1 1 5a6d3976596d4679", "b64dec 1 0 0 5a6d39765f2d", "b32enc 1 666f6f", "b32dec 1 1 4d5a585736", "b32dec 0 0 6d7a7877", "b36enc 0001ff", "b36dec 317a", "hotp sha1 3132333435363738393031323334353637383930 1 6", "cteq 6162 6162" };
+static std::string compute_static() {
+    std::string out;
+    for (size_t i = 0; i < sizeof g_static_lines / sizeof g_static_lines[0]; ++i) { if (i) out += "|"; out += guarded([&]() { return run(split(g_static_lines[i], ' ')); }); }
+    return out;
+}
+static const std::string g_static_results = compute_static();
+
 static std::string run(const std::vector<std::string>& a) {
     const std::string& op = a[0];
+    if (op == "staticinit") return g_static_results;
     if (op == "b64enc") {
         Base64Alphabet al = a[1] == "1" ? Base64Alphabet::Url : Base64Alphabet::Standard; bool pad = a[2] == "1"; Bytes d = bx(a[3]);
         secure_buffer<uint8_t> sd(d.size()); if (!d.empty()) memcpy(sd.data(), d.data(), d.size());
@@ -193,6 +221,23 @@ static std::string run(const std::vector<std::string>& a) {
         if (a[1] == "sha1") { hmac_hash::SHA1 c; c.init(); for (unsigned long long i = 0; i < n; i += chunk.size()) c.update(chunk.data(), (size_t)std::min<unsigned long long>(chunk.size(), n - i)); uint8_t d[20]; c.finish(d); return hx(d, 20); }
         if (a[1] == "sha256") { hmac_hash::SHA256 c; c.init(); for (unsigned long long i = 0; i < n; i += chunk.size()) c.update(chunk.data(), (size_t)std::min<unsigned long long>(chunk.size(), n - i)); uint8_t d[32]; c.finish(d); return hx(d, 32); }
         hmac_hash::SHA512 c; c.init(); for (unsigned long long i = 0; i < n; i += chunk.size()) c.update(chunk.data(), (size_t)std::min<unsigned long long>(chunk.size(), n - i)); uint8_t d[64]; c.finish(d); return hx(d, 64);
+    }
+    if (op == "shahuge") {  // shahuge <t> <nbytes> <full>: ONE update call carrying nbytes zero bytes (one-shot form) vs the same bytes streamed in 16 MiB updates;
+                            // full = 1 adds get_hash(ptr, n) and a 37-byte update followed by one update with the rest
+        size_t n = (size_t)strtoull(a[2].c_str(), 0, 10); bool full = a.size() > 3 && a[3] == "1"; uint8_t* z = (uint8_t*)calloc(n ? n : 1, 1);     // untouched zero pages: no resident memory
+        if (!z) return "HARNESS-no-memory";
+        const size_t piece = (size_t)16 << 20; std::string one, two, chunked, split;
+        if (a[1] == "sha1") { uint8_t d[20]; hmac_hash::sha1(z, n, d); one = hx(d, 20);
+            hmac_hash::SHA1 c; c.init(); for (size_t i = 0; i < n; i += piece) c.update(z + i, std::min(piece, n - i)); c.finish(d); chunked = hx(d, 20); two = split = one;
+            if (full) { two = hx(get_hash(z, n, TypeHash::SHA1)); hmac_hash::SHA1 e; e.init(); e.update(z, std::min<size_t>(n, 37)); if (n > 37) e.update(z + 37, n - 37); e.finish(d); split = hx(d, 20); } }
+        else if (a[1] == "sha256") { uint8_t d[32]; hmac_hash::sha256(z, n, d); one = hx(d, 32);
+            hmac_hash::SHA256 c; c.init(); for (size_t i = 0; i < n; i += piece) c.update(z + i, std::min(piece, n - i)); c.finish(d); chunked = hx(d, 32); two = split = one;
+            if (full) { two = hx(get_hash(z, n, TypeHash::SHA256)); hmac_hash::SHA256 e; e.init(); e.update(z, std::min<size_t>(n, 37)); if (n > 37) e.update(z + 37, n - 37); e.finish(d); split = hx(d, 32); } }
+        else { uint8_t d[64]; hmac_hash::sha512(z, n, d); one = hx(d, 64);
+            hmac_hash::SHA512 c; c.init(); for (size_t i = 0; i < n; i += piece) c.update(z + i, std::min(piece, n - i)); c.finish(d); chunked = hx(d, 64); two = split = one;
+            if (full) { two = hx(get_hash(z, n, TypeHash::SHA512)); hmac_hash::SHA512 e; e.init(); e.update(z, std::min<size_t>(n, 37)); if (n > 37) e.update(z + 37, n - 37); e.finish(d); split = hx(d, 64); } }
+        free(z);
+        return (one == two && two == chunked && chunked == split) ? "agree" : "DISAGREE oneshot=" + one + " get_hash=" + two + " chunked=" + chunked + " split37=" + split;
     }
     if (op == "hotp") {
         TypeHash ty = type_of(a[1]); Bytes k = bx(a[2]); uint64_t c = strtoull(a[3].c_str(), 0, 10); int d = atoi(a[4].c_str());
@@ -252,6 +297,15 @@ static std::string run(const std::vector<std::string>& a) {
         FORM("vecchar", ok_bool(is_totp_token_valid(tok, chars_of(k), p, d, ty)));
         FORM("secure", ok_bool(is_totp_token_valid(tok, sk, p, d, ty)));
         FORM("str", ok_bool(is_totp_token_valid(tok, str_of(k), p, d, ty)));
+        return agree_guarded(fs);
+    }
+    if (op == "pbkdf2tail") {   // pbkdf2tail <t> <P> <S> <c> <nblocks> <k>: derive nblocks whole blocks, report the last k (block indices beyond 65535 need a long output)
+        Pbkdf2Hash prf = a[1] == "sha1" ? Pbkdf2Hash::Sha1 : a[1] == "sha256" ? Pbkdf2Hash::Sha256 : Pbkdf2Hash::Sha512;
+        size_t hl = a[1] == "sha1" ? 20 : a[1] == "sha256" ? 32 : 64;
+        Bytes P = bx(a[2]), S = bx(a[3]); uint32_t c = (uint32_t)strtoul(a[4].c_str(), 0, 10); size_t nb = (size_t)strtoull(a[5].c_str(), 0, 10), k = (size_t)strtoull(a[6].c_str(), 0, 10);
+        std::vector<std::pair<std::string, Thunk> > fs;
+        FORM("vec", ({ Bytes r = pbkdf2(P.data(), P.size(), S.data(), S.size(), c, nb * hl, prf); "ok " + hx(r.data() + (nb - k) * hl, k * hl); }));
+        FORM("buf", ({ Bytes r(nb * hl); bool ok = pbkdf2(prf, P.data(), P.size(), S.data(), S.size(), c, r.data(), r.size()); ok ? "ok " + hx(r.data() + (nb - k) * hl, k * hl) : std::string("false"); }));
         return agree_guarded(fs);
     }
     if (op == "pbkdf2" || op == "pepper") {
@@ -415,9 +469,18 @@ static std::string run(const std::vector<std::string>& a) {
         f.push_back(std::make_pair("ptr-null-valid", bool_s(constant_time_equals(xn, x.size(), yv, y.size()))));
         f.push_back(std::make_pair("ptr-valid-null", bool_s(constant_time_equals(xv, x.size(), yn, y.size()))));
         f.push_back(std::make_pair("ptr-valid-valid", bool_s(constant_time_equals(xv, x.size(), yv, y.size()))));
+        // the same storage passed twice (a buffer against its own prefix): equal only if the lengths are equal
+        if (y.size() <= x.size() && std::equal(y.begin(), y.end(), x.begin()))
+            f.push_back(std::make_pair("ptr-aliased-prefix", bool_s(constant_time_equals(pv(x), x.size(), pv(x), y.size()))));
         { std::vector<uint8_t> xd, yr; if (!x.empty()) xd = x; if (y.empty()) yr.reserve(8); else yr = y;      // default-constructed vs reserved empty vectors
           f.push_back(std::make_pair("vec-default-reserved", bool_s(constant_time_equals(xd, yr)))); }
         return agree(f);
+    }
+    if (op == "cteqbig") {   // cteqbig <la> <lb>: two all-zero inputs of these lengths (zero pages; lengths beyond 2^32)
+        size_t la = (size_t)strtoull(a[1].c_str(), 0, 10), lb = (size_t)strtoull(a[2].c_str(), 0, 10);
+        uint8_t* za = (uint8_t*)calloc(la ? la : 1, 1); uint8_t* zb = (uint8_t*)calloc(lb ? lb : 1, 1); if (!za || !zb) return "HARNESS-no-memory";
+        bool r1 = constant_time_equals(za, la, zb, lb), r2 = constant_time_equals(zb, lb, za, la); free(za); free(zb);
+        return r1 == r2 ? bool_s(r1) : "ORDER-DEPENDENT";
     }
     if (op == "sha") return sha_forms(a[1], bx(a[2]));
     if (op == "shahist") {
